@@ -18,12 +18,18 @@ type c08History struct {
 	resizes []resize
 	extra   int64 // ticks after the last resize
 	random  bool
+	// gaps: in epochs e with e%6 in {4,5} nobody is a candidate, the published maps are empty (seeded change
+	// C08-7: an empty map not written over what the slot held one ring turn earlier)
+	gaps bool
 }
 
 func (h c08History) String() string {
 	var s []string
 	for _, r := range h.resizes {
 		s = append(s, fmt.Sprintf("count->%d@epoch%d", r.count, r.at))
+	}
+	if h.gaps {
+		s = append(s, "empty maps at epochs 4,5 mod 6")
 	}
 	return strings.Join(s, ", ")
 }
@@ -35,7 +41,7 @@ func c08Singles() []c08History {
 	var res []c08History
 	for c := int64(0); c <= c08MaxCount; c++ {
 		for t := int64(0); t <= c08MaxEpoch; t++ {
-			res = append(res, c08History{resizes: []resize{{t, c}}, extra: 14})
+			res = append(res, c08History{resizes: []resize{{t, c}}, extra: 14, gaps: (c+t)%2 == 1})
 		}
 	}
 	return res
@@ -62,7 +68,7 @@ func c08Double(idx int) c08History {
 		}
 		p -= n
 	}
-	return c08History{resizes: []resize{{t1, c1}, {t2, c2}}, extra: 14}
+	return c08History{resizes: []resize{{t1, c1}, {t2, c2}}, extra: 14, gaps: (c1+c2+t1+t2)%2 == 1}
 }
 
 const c08Quick2 = 600
@@ -228,12 +234,26 @@ func runC08History(b *runner.Batch, h c08History, sample bool) {
 		blob := e.blob(nk.pub)
 		addrs := []string{fmt.Sprintf("grpc://epoch%d", ep)}
 		attrs := map[string]string{"epoch": fmt.Sprint(ep)}
-		ps := []*world.Pending{
-			e.w.Prepare(e.w.Alpha(), e.nm, "addPeerIR", blob),
-			e.w.Prepare([]world.SignerSpec{world.G(nk.signer), world.G(e.w.Alphabet)}, e.nm, "addNode", node2Item(addrs, attrs, nk.pub, 1)),
+		var ps []*world.Pending
+		if h.gaps && (ep%6 == 4 || ep%6 == 5) {
+			// nobody is a candidate at this tick: everybody still listed leaves first
+			for _, old := range []int64{ep - 1, ep - 2} {
+				if old >= 1 {
+					ps = append(ps, e.w.Prepare(e.w.Alpha(), e.nm, "deleteNode", e.nodes[old].pub))
+					oh := fmt.Sprintf("%x", e.nodes[old].pub)
+					delete(e.m.legacy, oh)
+					delete(e.m.v2, oh)
+				}
+			}
+			b.Hit("tick-publishing-an-empty-map")
+		} else {
+			ps = []*world.Pending{
+				e.w.Prepare(e.w.Alpha(), e.nm, "addPeerIR", blob),
+				e.w.Prepare([]world.SignerSpec{world.G(nk.signer), world.G(e.w.Alphabet)}, e.nm, "addNode", node2Item(addrs, attrs, nk.pub, 1)),
+			}
+			e.m.legacy[ph] = legacyCand{blob: blob, state: 1}
+			e.m.v2[ph] = v2Cand{addrs: addrs, attrs: attrs, key: nk.pub, state: 1}
 		}
-		e.m.legacy[ph] = legacyCand{blob: blob, state: 1}
-		e.m.v2[ph] = v2Cand{addrs: addrs, attrs: attrs, key: nk.pub, state: 1}
 		if ep > 3 {
 			old := e.nodes[ep-3]
 			ps = append(ps, e.w.Prepare(e.w.Alpha(), e.nm, "deleteNode", old.pub))
@@ -395,9 +415,9 @@ func init() {
 	tb := []string{"neo-go v0.107.0 VM, ledger and native contracts are the trusted base", "contracts are compiled at check time from /repo/contracts"}
 	runner.Register(&runner.Check{
 		ID: "C06", Level: "exploration",
-		Rule:        "PRNG sequences mixing candidate changes, subscriptions (new, repeated, contract without newEpoch/1), reject-flag flips of 0-5 probe subscriber contracts and ticks with epoch arguments {smaller, equal, +1, +2, +5, 0, 2^31, values within 13 of 2^7/2^8/2^15/2^16/2^24, an early jump onto each value 243..259}, 1-2 transactions per block, committees 1/3/4/7; a model predicts success and, per tick, the exact Tick sequence of the probes; epoch, lastEpochBlock, netmap, snapshot(0), listNodes, both candidate lists are read after every block. distinct = (operation, signer class, reason/outcome, subscriber and candidate counts); every case is a state-changing request.",
+		Rule:        "PRNG sequences mixing candidate changes, subscriptions (new, repeated, contract without newEpoch/1), reject-flag flips of 0-5 probe subscriber contracts, a destroyed subscriber, a subscriber armed to call newEpoch(e+d) back from its callback (d in -1..3) and ticks with epoch arguments {smaller, equal, +1, +2, +5, 0, 2^31, values within 13 of 2^7/2^8/2^15/2^16/2^24, an early jump onto each value 243..259}, 1-2 transactions per block, committees 1/3/4/7; a model predicts success and, per tick, the exact Tick sequence of the probes; epoch, lastEpochBlock, netmap, snapshot(0), listNodes, both candidate lists are read after every block. distinct = (operation, signer class, reason/outcome, subscriber and candidate counts); every case is a state-changing request.",
 		Assumptions: tb, Batches: tier(192, 2048), Helpers: []string{"probe", "holder"}, Chunk: 8,
-		Floors: []string{"tick-accepted", "tick-refused:no-witness", "tick-refused:stale-epoch", "tick-refused:subscriber-rejects", "tick-with>=3-probes", "duplicate-subscription", "two-ticks-in-one-block", "early-jump-across-a-byte-boundary", "jump-next-to-an-encoding-boundary", "tick-refused:subscriber-destroyed"},
+		Floors: []string{"tick-accepted", "tick-refused:no-witness", "tick-refused:stale-epoch", "tick-refused:subscriber-rejects", "tick-with>=3-probes", "duplicate-subscription", "two-ticks-in-one-block", "early-jump-across-a-byte-boundary", "jump-next-to-an-encoding-boundary", "tick-refused:subscriber-destroyed", "tick-re-entered-by-a-subscriber", "tick-refused:subscriber-re-enters-with-a-stale-epoch"},
 		Run:    runC06,
 	})
 	runner.Register(&runner.Check{
@@ -412,7 +432,7 @@ func init() {
 		Rule:        "Histories from the deploy state (count 10): epochs advance by one, every epoch's map is unique (a node named after the epoch joins both lists before tick e and leaves after tick e+2); quick = all 403 single-resize histories (count 0..12 x resize epoch 0..30) + 600 PRNG-chosen two-resize histories + 600 PRNG-chosen 'near' two-resize histories (second resize 0-2 ticks after the first, counts within 3 of the previous count); thorough = all 83 824 two-resize histories + 256 random histories with 5 resizes. After every resize and every later tick a read sweep (snapshot(d) d=0..14, snapshotByEpoch and listNodes for 17 epochs around the window, netmap) is compared with the model's retention windows, and the raw storage is scanned for ring slots / structured lists outside the window. distinct = (old count, new count, epoch, window, outcome) for resizes and (count, windows) for ticks after a resize.",
 		Assumptions: append(tb, "a resize that faults is not judged beyond 'changed nothing' (the statement constrains accepted counts)"),
 		Batches:     c08Batches, Chunk: 1,
-		Floors: []string{"resize-accepted:grow", "resize-accepted:shrink", "resize-accepted:shrink-before-wrap", "shrink-after-wrap", "window-full-after-resize", "resize-refused:same", "near-double-resize-histories", "legacy-read-inside-window", "structured-read-inside-window", "structured-read-outside-window"},
+		Floors: []string{"resize-accepted:grow", "resize-accepted:shrink", "resize-accepted:shrink-before-wrap", "shrink-after-wrap", "window-full-after-resize", "resize-refused:same", "near-double-resize-histories", "tick-publishing-an-empty-map", "legacy-read-inside-window", "structured-read-inside-window", "structured-read-outside-window"},
 		Run:    runC08,
 		Exhaustive: func(tier string) (bool, string) {
 			if tier == "thorough" {
